@@ -245,4 +245,42 @@ theorem callSeq_last (c : Cfg) (k : Constructed) (calls : List (Nat × Nat)) (la
       simp only [callSeq]
       rw [this]; simp
 
+/-! ## the stem kernel of the ConvNeXt / Swin wrappers (`stem_patch_kernel`, `patch_size`)
+
+The stem conv has `padding = 1` hard-coded, so it divides multiples of its stride exactly iff
+`2 < k ≤ stride + 2`; for every such kernel the certificate is the one of the default kernel 4. -/
+
+theorem sconv_spat_valid (a b k s : Nat) (fresh : Bool) (hk : 2 < k ∧ k ≤ s + 2) (hs : 0 < s) :
+    (Op.sconv a b k s 1).spat fresh (s * 8) = some 8 := by
+  have h : (Op.sconv a b k s 1).exactOk = true := by
+    simp only [Op.exactOk, decide_eq_true_eq]; omega
+  have := Op.spat_exact (Op.sconv a b k s 1) h fresh 8 (by omega)
+  simpa [Op.stride, Nat.mul_comm] using this
+
+theorem wellFormed_stemKernel (c : Cfg) (hf : c.fam ≠ .unet) (k : Nat) (hk : 2 < k ∧ k ≤ c.stem + 2)
+    (h4 : 2 ≤ c.stem) :
+    wellFormed { c with stemKernel := k } = wellFormed { c with stemKernel := 4 } := by
+  have e4 : (2 : Nat) < 4 ∧ 4 ≤ c.stem + 2 := by omega
+  have hs : 0 < c.stem := by omega
+  unfold wellFormed build
+  cases hfam : c.fam with
+  | unet => exact absurd hfam hf
+  | convnext =>
+    simp only [Cfg.realMaxStride]
+    cases decBuild ((convnextChannels c.variant).getD 0 0) c.rate 3 (wrapUp c.fixWrap c.stem c.bos)
+        ((convnextChannels c.variant).getD 3 0) (c.stem * 4) c.bos with
+    | err e => rfl
+    | ok dec =>
+      simp only [Res.bind_ok, spatStages, chanStages, encRun, Op.chan, sconv_spat_valid _ _ _ _ _ hk hs,
+        sconv_spat_valid _ _ _ _ _ e4 hs, List.all_cons, Op.exactOk, encStride, Op.stride]
+      simp [hk.1, hk.2, e4.2, hs, certOs, Cfg.minOs, Cfg.realMaxStride, labels]
+  | swint =>
+    simp only [Cfg.realMaxStride]
+    cases decBuild (swintEmbed c.variant) c.rate 3 (wrapUp c.fixWrap c.stem c.bos)
+        (swintEmbed c.variant * 8) (c.stem * 4) c.bos with
+    | err e => rfl
+    | ok dec =>
+      simp only [Res.bind_ok, spatStages, chanStages, encRun, Op.chan, sconv_spat_valid _ _ _ _ _ hk hs,
+        sconv_spat_valid _ _ _ _ _ e4 hs, List.all_cons, Op.exactOk, encStride, Op.stride]
+      simp [hk.1, hk.2, e4.2, hs, certOs, Cfg.minOs, Cfg.realMaxStride, labels]
 end SleapVerif.Arch
